@@ -90,3 +90,102 @@ Theorem C16_cast_matches_source :
   | None => True
   end.
 Proof. split; vm_compute; first [reflexivity | exact I]. Qed.
+
+(** ** The configuration after the load (what a user finally reads).
+    Proofs are in Proofs/C16_view.v (+ Proofs/C16_view_shapes.v); they reuse the
+    merge and obliterate shape theorems of C03/C06. *)
+From InvokeVerif Require Import Corr.C16Corr Proofs.C16_view.
+From InvokeVerif Require Proofs.C03_merge.
+
+(** Guard (boolean, [Proofs/C16_view.v]): every level of the case (defaults,
+    collection / overrides, modifications) is a dict without duplicate keys at
+    any depth, and so is the deletions tree:
+      view_guard c = forallb wf (levels c) && forallb is_node (levels c) && wf (c_dels c).
+    Type consistency of the levels is not a guard: it is implied by [pre c = Ok _]
+    (theorem [C16_pre_ok_iff_consistent]).  Nothing is asked of the deletions
+    tree beyond well-formedness (whatever leaf marks a path deletes it). *)
+
+(** Flagship for the view: whenever the configuration the environment is read
+    against exists ([pre c = Ok t]) and the load was accepted, the view computed
+    in Config.merge order (defaults, collection, env, overrides, modifications,
+    then deletions) is accepted by the executable [spec_view]: (a) it has exactly
+    the defined paths of [t] -- nothing created, nothing lost; (b) every setting
+    of [t] reads the converted value of the env level unless a higher level
+    (overrides, modifications) defines that path, and otherwise its old value. *)
+Theorem C16_view_meets_spec : forall c t d v,
+  view_guard c = true ->
+  pre c = Ok t -> model_env c = Ok (Node d) -> model_view c = Some v ->
+  spec_view t (skipn 1 (c_more c) ++ [c_mods c]) d v = true.
+Proof. exact view_meets_spec. Qed.
+
+(** Totality: once the pre-merge and the load succeeded the final merge cannot
+    fail (the env level only overrides existing leaves with leaves). *)
+Theorem C16_view_total : forall c t e,
+  view_guard c = true -> pre c = Ok t -> model_env c = Ok e -> model_view c <> None.
+Proof. exact view_total. Qed.
+
+(** Both halves as one boolean judgement of the model's three outputs. *)
+Theorem C16_view_flagship : forall c,
+  view_guard c = true ->
+  match pre c, model_env c with
+  | Ok t, Ok (Node d) =>
+      match model_view c with
+      | Some v => spec_view t (skipn 1 (c_more c) ++ [c_mods c]) d v
+      | None => false
+      end
+  | Ok _, Ok (Leaf _) => false
+  | _, _ => true
+  end = true.
+Proof. exact view_flagship. Qed.
+
+(** The hypothesis [pre c = Ok _] is exactly pairwise type consistency of the
+    levels (C03's guard, as a statement about paths). *)
+Theorem C16_pre_ok_iff_consistent : forall c,
+  view_guard c = true ->
+  ((exists t, pre c = Ok t) <->
+   (forall a b, In a (levels c) -> In b (levels c) -> C03_merge.agree a b)).
+Proof. exact pre_ok_iff_consistent. Qed.
+
+(** Readable corollaries.  No setting or section is created or lost ... *)
+Theorem C16_view_nothing_created_or_lost : forall c t d v,
+  view_guard c = true -> pre c = Ok t -> model_env c = Ok (Node d) -> model_view c = Some v ->
+  forall p, p <> [] -> (lookup p v = None <-> lookup p t = None).
+Proof. exact view_nothing_created_or_lost. Qed.
+
+(** ... and every setting reads: the converted value if a variable names it and
+    no higher level defines it; its old value otherwise. *)
+Theorem C16_view_settings : forall c t d v,
+  view_guard c = true -> pre c = Ok t -> model_env c = Ok (Node d) -> model_view c = Some v ->
+  forall p x, In (p, x) (leaf_paths t) ->
+    leaf_at p v = Some (match leaf_at p (Node d) with
+                        | Some w => if existsb (defined_in p) (higher c) then x else w
+                        | None => x
+                        end).
+Proof. exact view_settings. Qed.
+
+(** Non-vacuity: nested settings, a collection level, an overrides level that
+    beats the environment ([run.shell]), a runtime modification, a deleted
+    setting that a variable names ([run.old]: not resurrected), an unrelated
+    variable; all hypotheses hold and the view is the expected one. *)
+Example C16_example_view :
+  let c := mk (Node [("run", Node [("echo", Leaf (VBool false)); ("shell", Leaf (VStr "sh"));
+                                   ("old", Leaf (VInt 3))]);
+                     ("n", Leaf (VInt 1))])
+              [Node [("n", Leaf (VInt 2)); ("tasks", Node [("dedupe", Leaf (VBool true))])];
+               Node [("run", Node [("shell", Leaf (VStr "zsh"))])]]
+              (Node [("extra", Leaf (VStr "x"))])
+              (Node [("run", Node [("old", Leaf VNone)])])
+              "invoke"
+              [("INVOKE_RUN_ECHO", "1"); ("INVOKE_RUN_SHELL", "fish"); ("INVOKE_N", "7");
+               ("INVOKE_RUN_OLD", "9"); ("INVOKE_NOPE", "x")]
+              (Err EOther) None in
+  view_guard c = true /\
+  pre c = Ok (Node [("run", Node [("echo", Leaf (VBool false)); ("shell", Leaf (VStr "zsh"))]);
+                    ("n", Leaf (VInt 2)); ("tasks", Node [("dedupe", Leaf (VBool true))]);
+                    ("extra", Leaf (VStr "x"))]) /\
+  model_env c = Ok (Node [("run", Node [("echo", Leaf (VBool true)); ("shell", Leaf (VStr "fish"))]);
+                          ("n", Leaf (VInt 7))]) /\
+  model_view c = Some (Node [("run", Node [("echo", Leaf (VBool true)); ("shell", Leaf (VStr "zsh"))]);
+                             ("n", Leaf (VInt 7)); ("tasks", Node [("dedupe", Leaf (VBool true))]);
+                             ("extra", Leaf (VStr "x"))]).
+Proof. vm_compute. repeat split; reflexivity. Qed.
